@@ -25,7 +25,7 @@ THEOREMS = ["C14_build_closed", "C14_heal_closed", "C14_replace_closed", "C14_cl
             "C14_extend_source_untouched", "C14_extend_preserved", "C14_visibility_types",
             "C14_visibility_members", "C14_clone_preserved", "C14_vis_preserved", "C14_camel_preserved",
             "C14_camel_complete", "C14_visibility_complete", "C14_clone_observe_equal", "C14_clone_repeatable",
-            "C14_repeatable", "C14_repeatable_vis", "C14_repeatable_camel"]
+            "C14_repeatable", "C14_repeatable_vis", "C14_repeatable_camel", "C14_build_order_stable"]
 AXIOMS_OK = []
 RUN_MODULE = "Run.C14run Schema.StoreModel Schema.StoreExtend"
 AGREE = "agree_C14"
@@ -1002,6 +1002,15 @@ def corpus():
     out.append(_case(W32E, [{"op": "clone", "on": 0}, {"op": "extend", "on": 1, "doc": EXT},
                             {"op": "sdir", "on": 0}, {"op": "extend", "on": 0, "doc": "extend type Bar { n: Int }"},
                             {"op": "sdir", "on": 4}]))
+    # seeded C14-g: an explicit `= null` default (has_default_value, value None) of a field argument, an
+    # input field or a directive argument must survive extend_schema -- an unrelated and a related extension
+    W32N = (W32.replace("bar(a: Int = 3, snake_arg: In)", "bar(a: Int = null, snake_arg: In = null, l: [Int] = null, en: E = null)")
+               .replace("input In { x: Int = 1, y_z: [In2] }", "input In { x: Int = null, y_z: [In2] = null, s: String = null }")
+               .replace("directive @meta(e: OnlyDir = P, n: Int = 3)", "directive @meta(e: OnlyDir = null, n: Int = null)"))
+    out.append(_case(W32N, [{"op": "extend", "on": 0, "doc": "extend type Query { version: Int }"},
+                            {"op": "extend", "on": 0, "doc": "extend type Foo { z(q: [Int] = null, w: Int): Int }\n"
+                                                              "extend input In { extra: Int = null }"},
+                            {"op": "clone", "on": 1}, {"op": "camel", "on": 2}]))
     out.append(_case(W32E, [dict(_NOVIS, op="vis", on=0, types=["Orphan"]), {"op": "camel", "on": 0},
                             {"op": "extend", "on": 1, "doc": "extend type Foo @remove { secret: String }"},
                             {"op": "extend", "on": 2, "doc": "extend enum E @remove { C }"},
